@@ -1,5 +1,5 @@
 """property id -> rules"""
-from rules import task_constraints, tasks, optional, logic, resources
+from rules import task_constraints, tasks, optional, logic, resources, resource_constraints
 from sa.selftest import self_test_rule
 
 NOTES = ("Every check decides structural clauses (necessary conditions) of its property from /repo's source as parsed on "
@@ -8,6 +8,23 @@ NOTES = ("Every check decides structural clauses (necessary conditions) of its p
 NOT_APPLICABLE = {}
 
 PROPERTIES = {
+    "C04": {
+        "rules": resource_constraints.RULES,
+        "thorough": [self_test_rule("C04")],
+        "level_text": "Per resource-constraint class and configuration the emitted terms are decided against the documented "
+                      "relation: ResourceUnavailable and ResourceInterrupted by exhaustive order types of (busy start, busy end, "
+                      "lo, hi); WorkLoad by functional-definition consistency (in each of the order types exactly one consistent "
+                      "definition of the overlap variable, equal to max(0, min(end,hi)-max(start,lo))) plus the kind dispatch; "
+                      "distance / non-delay by canonical atoms over sorted copies; Same/DistinctWorkers by truth tables; plus "
+                      "attribute resolution, cumulative fan-out, escaped loop variables and the structure of the periodic "
+                      "encodings.",
+        "level_note": "NOT decided: the modular arithmetic of ResourcePeriodicallyUnavailable / ResourcePeriodicallyInterrupted "
+                      "(only fan-out, parameters used, activity mask, rejection of unassigned resources). Assumes lo <= hi for "
+                      "every interval. Trusted: z3, the sorted-copy helper (checked under C09).",
+        "explanation": "Static analysis of resource_constraint.py on the extracted IR with order-type enumeration, "
+                       "functional-definition consistency, canonical atoms and truth tables; whole-program attribute "
+                       "resolution and union-exhaustiveness over the class table.",
+    },
     "C02": {
         "rules": resources.RULES,
         "thorough": [self_test_rule("C02")],
